@@ -6,9 +6,7 @@ from . import props
 VERIF = os.path.dirname(os.path.dirname(os.path.abspath(__file__)))
 ALL = [json.loads(l) for l in open(os.path.join(VERIF, "properties.jsonl"))]
 
-NOT_APPLICABLE = {
-    "C09": "bounded-time recovery after arbitrary fault histories is a liveness property of the asyncio scheduler + lossy network + timers across ~10 tasks; no per-function contract or data-structure invariant expresses or implies it, and an inductive invariant would have to range over a hand-written model of the event loop (a different family). See DESIGN.md section 3 C09.",
-}
+NOT_APPLICABLE = {}
 
 
 def main():
